@@ -19,26 +19,33 @@ typedef std::tuple<std::string, int, int> Key;
 std::string lower(std::string s) { for (auto& c : s) c = (char)tolower((unsigned char)c); return s; }
 enum OpK { PUT, PUT_NEG_SOA, PUT_NEG_TTL, GET, REMOVE, CLEAR, ADVANCE, NOPK };
 const char* opn[] = {"put", "putNegative(SOA)", "putNegative(ttl)", "get", "remove", "clear", "advance"};
-struct Op { int k; std::string name; int type; std::vector<uint32_t> ttls; uint32_t soaMin = 0, soaTtl = 0; uint64_t adv_ms = 0; };
-DnsResult make_result(uint64_t id, const std::vector<uint32_t>& ttls)
+struct Op { int k; std::string name; int type; int cls = 1; std::vector<uint32_t> ttls; std::vector<int> secs; uint32_t soaMin = 0, soaTtl = 0; uint64_t adv_ms = 0; };
+DnsResult make_result(uint64_t id, const std::vector<uint32_t>& ttls, const std::vector<int>& secs)
 {
   DnsResult r;
+  // identity marker that survives the cache (first CNAME record)
+  r.cname_records.push_back(CnameRecord("id", "v" + std::to_string(id), UINT32_MAX));
   r.header.rcode = DnsResponseCode::NOERROR;
   for (size_t i = 0; i < ttls.size(); i++)
   {
-    // spread the records over different sections: the smallest TTL of ALL of them counts
-    switch (i % 4)
+    // each record goes to the section the plan drew for it: the smallest TTL of ALL of them counts
+    switch (secs[i] % 11)
     {
     case 0: r.a_records.push_back(ARecord("x.example", "10.0.0." + std::to_string(id % 250), ttls[i])); break;
     case 1: { DnsResourceRecord rr("x.example", DnsType::A, DnsClass::IN, ttls[i]); r.answers.push_back(rr); break; }
     case 2: { DnsResourceRecord rr("ns.example", DnsType::NS, DnsClass::IN, ttls[i]); r.authority.push_back(rr); break; }
-    default: { DnsResourceRecord rr("glue.example", DnsType::A, DnsClass::IN, ttls[i]); r.additional.push_back(rr); break; }
+    case 3: { DnsResourceRecord rr("glue.example", DnsType::A, DnsClass::IN, ttls[i]); r.additional.push_back(rr); break; }
+    case 4: r.aaaa_records.push_back(AAAARecord("x.example", "::1", ttls[i])); break;
+    case 5: r.srv_records.push_back(SrvRecord("_sip._udp.example", 1, 2, 5060, "x.example", ttls[i])); break;
+    case 6: r.naptr_records.push_back(NaptrRecord("example", 1, 2, "S", "SIP+D2U", "", "_sip._udp.example", ttls[i])); break;
+    case 7: r.mx_records.push_back(MxRecord("example", 10, "mx.example", ttls[i])); break;
+    case 8: r.txt_records.push_back(TxtRecord("example", {"t"}, ttls[i])); break;
+    case 9: r.ptr_records.push_back(PtrRecord("1.0.0.10.in-addr.arpa", "x.example", ttls[i])); break;
+    default: r.cname_records.push_back(CnameRecord("alias.example", "x.example", ttls[i])); break;
     }
   }
   r.header.id = (uint16_t)id;
   r.header.ancount = (uint16_t)r.answers.size();
-  // identity marker that survives the cache: a TXT-free way is the id field plus a CNAME target
-  r.cname_records.push_back(CnameRecord("id", "v" + std::to_string(id), UINT32_MAX));
   return r;
 }
 uint64_t result_id(const DnsResult& r)
@@ -54,12 +61,13 @@ extern "C" void harness_run()
 {
   iora::core::Logger::setLevel(iora::core::Logger::Level::Fatal);
   bool th = hx::thorough();
-  static const char* names[] = {"a.example", "A.Example", "a.EXAMPLE", "b.example", "a.example.", "sip.a.example"};
+  static const char* names[] = {"a.example", "A.Example", "a.EXAMPLE", "b.example", "aa.example", "sip.a.example"};
   static const int types[] = {(int)DnsType::A, (int)DnsType::AAAA, (int)DnsType::SRV};
   static const uint32_t ttlv[] = {0, 1, 2, 5, 60, 300, 3600, 0x80000000u, 0xFFFFFFFFu, 7};
   int n = 6 + (int)sim::draw(th ? 60 : 30);
   std::vector<Op> plan;
   std::vector<uint32_t> pending;
+  bool hugeUsed = false;
   uint32_t defaultTtl = sim::draw(2) ? 300 : 30;
   for (int i = 0; i < n; i++)
   {
@@ -68,9 +76,10 @@ extern "C" void harness_run()
     o.k = mix[sim::draw(15)];
     o.name = names[sim::draw(6)];
     o.type = types[sim::draw(3)];
-    int nr = (int)sim::draw(4);
+    o.cls = sim::draw(5) == 0 ? (int)DnsClass::CH : (int)DnsClass::IN;
+    int nr = (int)sim::draw(5);
     if (o.k == PUT && sim::draw(5) != 0 && nr == 0) nr = 1;
-    for (int r = 0; r < nr; r++) o.ttls.push_back(ttlv[sim::draw(10)]);
+    for (int r = 0; r < nr; r++) { o.ttls.push_back(ttlv[sim::draw(10)]); o.secs.push_back((int)sim::draw(11)); }
     o.soaMin = ttlv[sim::draw(10)];
     o.soaTtl = ttlv[sim::draw(10)];
     if (o.k == PUT) { uint32_t m = defaultTtl; bool any = false; for (auto t : o.ttls) { if (!any || t < m) m = t; any = true; } pending.push_back(m); }
@@ -84,6 +93,8 @@ extern "C" void harness_run()
       int64_t ms = (int64_t)base * 1000 + offs[sim::draw(5)];
       if (sim::draw(4) == 0) ms = 1 + (int64_t)sim::draw(7000);
       if (ms <= 0) ms = 1;
+      // the monotonic clock is a signed 64-bit nanosecond count (292 years): allow one multi-decade jump per run at most
+      if (ms > 100000000ll) { if (hugeUsed) ms = 1 + (int64_t)sim::draw(7000); else hugeUsed = true; }
       o.adv_ms = (uint64_t)ms;
     }
     plan.push_back(o);
@@ -93,7 +104,7 @@ extern "C" void harness_run()
     for (auto& o : plan)
     {
       l += std::string(" ") + opn[o.k];
-      if (o.k == PUT) { l += "(" + o.name + ",ttls"; for (auto t : o.ttls) l += ":" + std::to_string(t); l += ")"; }
+      if (o.k == PUT) { l += "(" + o.name + ",ttls"; for (size_t i = 0; i < o.ttls.size(); i++) l += ":" + std::to_string(o.ttls[i]) + "@s" + std::to_string(o.secs[i]); l += ")"; }
       else if (o.k == PUT_NEG_SOA) l += "(" + o.name + ",min=" + std::to_string(o.soaMin) + ",ttl=" + std::to_string(o.soaTtl) + ")";
       else if (o.k == PUT_NEG_TTL) l += "(" + o.name + "," + std::to_string(o.soaTtl) + "s)";
       else if (o.k == GET || o.k == REMOVE) l += "(" + o.name + ")";
@@ -112,13 +123,13 @@ extern "C" void harness_run()
     DnsCache cache{std::chrono::seconds(defaultTtl)};
     uint64_t idc = 0;
     int step = 0;
-    size_t hits = 0, expiredProbes = 0;
-    auto check_get = [&](const std::string& name, int type, const char* ctx)
+    size_t hits = 0, expiredProbes = 0, earlyMiss = 0;
+    auto check_get = [&](const std::string& name, int type, int cls, const char* ctx)
     {
-      DnsQuestion q(name, (DnsType)type, DnsClass::IN);
+      DnsQuestion q(name, (DnsType)type, (DnsClass)cls);
       DnsResult r;
       bool got = cache.get(q, r);
-      Key k{lower(name), type, (int)DnsClass::IN};
+      Key k{lower(name), type, cls};
       auto it = m.find(k);
       uint64_t now = sim::now();
       bool want = it != m.end() && now < it->second.expires_ns;
@@ -126,12 +137,13 @@ extern "C" void harness_run()
       if (got && !want)
       {
         if (it == m.end())
-          sim::fail("c19-wrong-question", "step %d %s: get(%s,type %d) was answered from the cache although nothing is cached for this question", step, ctx, name.c_str(), type);
+          sim::fail("c19-wrong-question", "step %d %s: get(%s,type %d,class %d) was answered from the cache although nothing is cached for this question", step, ctx, name.c_str(), type, cls);
         sim::fail("c19-served-after-ttl", "step %d %s: get(%s,type %d) was answered from the cache %.3f s after its %s TTL had elapsed", step, ctx, name.c_str(), type,
                   (now - it->second.expires_ns) / 1e9, it->second.negative ? "negative-caching" : "smallest record");
       }
-      if (!got && want)
-        sim::fail("c19-missing", "step %d %s: get(%s,type %d) missed although an entry with %.3f s of TTL left is cached", step, ctx, name.c_str(), type, (it->second.expires_ns - now) / 1e9);
+      // a miss before expiry is not a violation: the property bounds how LONG an answer may be served, not that it must be
+      // (DnsCache e.g. keeps an answer whose smallest TTL is 2^32-1 only for its default TTL)
+      if (!got && want) earlyMiss++;
       if (got)
       {
         hits++;
@@ -142,15 +154,15 @@ extern "C" void harness_run()
     for (auto& o : plan)
     {
       step++;
-      DnsQuestion q(o.name, (DnsType)o.type, DnsClass::IN);
-      Key k{lower(o.name), o.type, (int)DnsClass::IN};
+      DnsQuestion q(o.name, (DnsType)o.type, (DnsClass)o.cls);
+      Key k{lower(o.name), o.type, o.cls};
       uint64_t now = sim::now();
       switch (o.k)
       {
       case PUT:
       {
         uint64_t id = ++idc;
-        DnsResult r = make_result(id, o.ttls);
+        DnsResult r = make_result(id, o.ttls, o.secs);
         cache.put(q, r);
         uint64_t ttl = defaultTtl; // no record at all: the configured default
         bool any = false;
@@ -161,7 +173,7 @@ extern "C" void harness_run()
       case PUT_NEG_SOA:
       {
         uint64_t id = ++idc;
-        DnsResult r = make_result(id, {});
+        DnsResult r = make_result(id, {}, {});
         r.header.rcode = DnsResponseCode::NXDOMAIN;
         r.soa_records.push_back(SoaRecord("example", "ns.example", "root.example", 1, 2, 3, 4, o.soaMin, o.soaTtl));
         cache.putNegative(q, r, "nxdomain");
@@ -172,22 +184,27 @@ extern "C" void harness_run()
       case PUT_NEG_TTL:
       {
         uint64_t id = ++idc;
-        DnsResult r = make_result(id, {});
+        DnsResult r = make_result(id, {}, {});
         r.header.rcode = DnsResponseCode::NXDOMAIN;
         cache.putNegative(q, r, o.soaTtl, "nxdomain");
         m[k] = {id, true, now + (uint64_t)o.soaTtl * 1000000000ull};
         break;
       }
-      case GET: check_get(o.name, o.type, "get"); break;
+      case GET: check_get(o.name, o.type, o.cls, "get"); break;
       case REMOVE: cache.remove(q); m.erase(k); break;
       case CLEAR: cache.clear(); m.clear(); break;
-      case ADVANCE: sim::sleep_ns(o.adv_ms * 1000000ull); break;
+      case ADVANCE:
+        // short advances are slept (the purge thread runs every 5 s); long ones jump the clock in one go
+        if (o.adv_ms <= 600000) sim::sleep_ns(o.adv_ms * 1000000ull);
+        else { sim::advance_ns(o.adv_ms * 1000000ull); sim::sleep_ns(6000000000ull); }
+        break;
       }
       // after every step: probe every question (all spellings, all types)
-      for (auto nm : names) for (int t : types) check_get(nm, t, opn[o.k]);
+      for (auto nm : names) for (int t : types) for (int c : {(int)DnsClass::IN, (int)DnsClass::CH}) check_get(nm, t, c, opn[o.k]);
     }
     sim::count("c19.cache_steps", (uint64_t)step);
     sim::count("c19.cache_hits", hits);
+    sim::count("c19.early_misses", earlyMiss);
     sim::count("c19.expired_entry_probes", expiredProbes);
     sim::state_mix((uint64_t)step * 31 + hits * 7 + expiredProbes);
   }
